@@ -47,6 +47,20 @@ func (sc *serverConn) noteBodyRead(st *stream, n int) {
 }
 
 // st may be nil for conn-level
+// returnDiscardedData accounts the n bytes of a DATA frame that is not going to be
+// delivered to a handler against the conn-level window (the client has deducted them
+// from its own view of that window) and returns them to the client at once.
+// It reports false if the client exceeded the conn-level window.
+func (sc *serverConn) returnDiscardedData(n int) bool {
+	sc.serveG.Check()
+	if int(sc.inflow.available()) < n {
+		return false
+	}
+	sc.inflow.take(int32(n))
+	sc.sendWindowUpdate(nil, n)
+	return true
+}
+
 func (sc *serverConn) sendWindowUpdate(st *stream, n int) {
 	sc.serveG.Check()
 	// "The legal range for the increment to the flow control
